@@ -2,6 +2,7 @@ package sim
 
 import (
 	"context"
+	"crypto/sha256"
 	"errors"
 	"fmt"
 	"os"
@@ -181,6 +182,8 @@ type World struct {
 	Nodes       map[string]*Node
 	Start       time.Time
 	tmpDirs     []string
+	// CustomPayload: see managerOptions. Set before the first node starts.
+	CustomPayload bool
 }
 
 // NewWorld must be called inside a Bubble.
@@ -315,6 +318,30 @@ func (w *World) AddNode(cfg NodeCfg) *Node {
 	return n
 }
 
+// managerOptions: the defaults, or - World.CustomPayload - a chain whose sequencer signs something else than the
+// default payload (the documented ManagerOptions.SignaturePayloadProvider that ABCI-style adapters set); every node
+// of the world is then configured alike.
+func (w *World) managerOptions() block.ManagerOptions {
+	o := block.DefaultManagerOptions()
+	if w.CustomPayload {
+		o.SignaturePayloadProvider = func(h *types.Header) ([]byte, error) {
+			b, err := types.DefaultSignaturePayloadProvider(h)
+			if err != nil {
+				return nil, err
+			}
+			sum := sha256.Sum256(append([]byte("custom-payload/"), b...))
+			return sum[:], nil
+		}
+	}
+	return o
+}
+
+// ValidHeader: ValidateBasic under the world's signature payload provider.
+func (w *World) ValidHeader(sh *types.SignedHeader) bool {
+	sh.SetCustomVerifier(w.managerOptions().SignaturePayloadProvider)
+	return sh.ValidateBasic() == nil
+}
+
 func (n *Node) config() config.Config {
 	c := config.DefaultConfig
 	c.RootDir = n.Root
@@ -395,7 +422,7 @@ func (n *Node) StartNode() error {
 	n.HB = NewCapture[*types.SignedHeader](n.Fence)
 	n.DB = NewCapture[*types.Data](n.Fence)
 	m, err := block.NewManager(ctx, sg, n.config(), n.W.Genesis, n.Store, exec, n.Seq, da, logger,
-		n.HStore, n.DStore, n.HB, n.DB, block.NopMetrics(), 1.0, 1.5, block.DefaultManagerOptions())
+		n.HStore, n.DStore, n.HB, n.DB, block.NopMetrics(), 1.0, 1.5, n.W.managerOptions())
 	if err != nil {
 		cancel()
 		n.StartErrors = append(n.StartErrors, err.Error())
